@@ -13,6 +13,10 @@
 //	Z <fnline> <line>                                            explicit-stack defer without owner in a function without recover block: dropped
 //	N <fnline>                                                   the frame is set up in place by a DeferAlways statement whose block does
 //	                                                             not dominate the other defer statements / RunDefers of the function
+//	Q <fnline>                                                   the function sets its frame up at entry (ssa:deferstack) but no return
+//	                                                             runs RunDefers: go/ssa emitted none and cl/compile.go adds none
+//	                                                             (returnNeedsImplicitRunDefers refuses synthetic functions, and an
+//	                                                             instance of a generic function is "synthetic") - the frame is never popped
 //	I <fnline>                                                   a return of the function gets an IMPLICIT RunDefers from
 //	                                                             cl/compile.go returnNeedsImplicitRunDefers (go/ssa emitted none)
 //
@@ -197,8 +201,21 @@ func blockFacts(fn *ssa.Function, b *ssa.BasicBlock) (dom, cyc int) {
 
 // implicitRunDefers mirrors cl/compile.go returnNeedsImplicitRunDefers: a return outside the recover block that is not
 // preceded by a RunDefers instruction, in a non-synthetic function with an explicit-stack defer in a nested function.
+// isWrapper mirrors the test `fn.Synthetic != ""` of cl/instr.go deferStackOwner and cl/compile.go
+// returnNeedsImplicitRunDefers. With VP04_INSTANCE_OWNER=1 (the check sets it when the working tree behaves like
+// fixes/C04-2.diff: probed with the corpus witness k) an instance of a generic function is not a wrapper.
+func isWrapper(fn *ssa.Function) bool {
+	if fn.Synthetic == "" {
+		return false
+	}
+	if os.Getenv("VP04_INSTANCE_OWNER") == "1" && fn.Parent() == nil && len(fn.TypeArgs()) > 0 {
+		return false
+	}
+	return true
+}
+
 func implicitRunDefers(fn *ssa.Function) bool {
-	if fn.Synthetic != "" {
+	if isWrapper(fn) {
 		return false
 	}
 	nested := false
@@ -222,6 +239,30 @@ func implicitRunDefers(fn *ssa.Function) bool {
 		}
 	}
 	return true
+}
+
+func hasRunDefers(fn *ssa.Function) bool {
+	for _, b := range fn.Blocks {
+		for _, in := range b.Instrs {
+			if _, ok := in.(*ssa.RunDefers); ok {
+				return true
+			}
+		}
+	}
+	return false
+}
+
+func usesDeferStack(fn *ssa.Function) bool {
+	for _, b := range fn.Blocks {
+		for _, in := range b.Instrs {
+			if c, ok := in.(*ssa.Call); ok {
+				if bi, ok := c.Call.Value.(*ssa.Builtin); ok && bi.Name() == "ssa:deferstack" {
+					return true
+				}
+			}
+		}
+	}
+	return false
 }
 
 func calleeIsClosure(d *ssa.Defer) int {
@@ -253,6 +294,8 @@ func report(w *bufio.Writer, fset *token.FileSet, fn *ssa.Function) {
 	}
 	if implicitRunDefers(fn) {
 		fmt.Fprintf(w, "I %d\n", fset.Position(fn.Pos()).Line)
+	} else if usesDeferStack(fn) && !hasRunDefers(fn) {
+		fmt.Fprintf(w, "Q %d\n", fset.Position(fn.Pos()).Line)
 	}
 	if !has {
 		return
@@ -264,7 +307,7 @@ func report(w *bufio.Writer, fset *token.FileSet, fn *ssa.Function) {
 	// at nil: llgo then falls back to Builder.Defer(DeferInLoop) in the function being compiled — an ordinary loop statement
 	// when that function has a recover block, silently nothing in a yield closure (it has none).
 	owner := fn
-	for owner != nil && owner.Synthetic != "" {
+	for owner != nil && isWrapper(owner) {
 		owner = owner.Parent()
 	}
 	infos := blocks.Infos(fn.Blocks)
